@@ -462,6 +462,44 @@ pub async fn witness_178_big(delta: i64) -> TraceResult {
     TraceResult { hash: w.trace_hash(), nontrivial: true, steps: w.step_no as u64, findings: std::mem::take(&mut w.findings), stats: std::mem::take(&mut w.stats), replay }
 }
 
+/// C13: a live member's max version goes DOWN through a gossip reset (its latest writes were deletions that the
+/// owner collected while only its SYNs reached us): the live set / max versions changed, so a new value is due.
+pub async fn witness_watch_reset() -> TraceResult {
+    let mut cfg = witness_cfg(2);
+    cfg.profile = Profile::Watch;
+    cfg.tomb_grace = Duration::from_secs(20);
+    cfg.dead_grace = Duration::from_secs(3600);
+    cfg.phi = 8.0;
+    cfg.max_interval = Duration::from_secs(10);
+    cfg.initial_interval = Duration::from_secs(1);
+    let mut w = World::new(cfg, 0xC13);
+    for s in 0..2 {
+        w.start(s);
+    }
+    let (x, b) = (0usize, 1usize);
+    w.write(x, 0, "a", "1");
+    w.write(x, 0, "b", "2");
+    w.write(x, 0, "k", "3");
+    w.handshake(b, x); // B holds X at max version 3
+    w.write(x, 2, "k", ""); // delete k @4, B never sees the tombstone
+    // only X's SYNs reach B for a while: X stays live on B
+    for _ in 0..25 {
+        w.advance(Duration::from_secs(1)).await;
+        w.beat(x);
+        if let Some(syn) = w.emit_syn(x) {
+            let _ = w.process(b, x, &syn);
+        }
+        w.eval(b);
+    }
+    w.gc(x); // X collects the tombstone: watermark 4
+    w.handshake(b, x); // B is reset: copy (watermark 4, max version 2): the max version went down
+    w.eval(b);
+    w.handshake(b, x);
+    w.eval(b);
+    let replay = w.replay_doc("E1-witness-watch-reset", 0);
+    TraceResult { hash: w.trace_hash(), nontrivial: true, steps: w.step_no as u64, findings: std::mem::take(&mut w.findings), stats: std::mem::take(&mut w.stats), replay }
+}
+
 /// Everything collected by the owner: the only thing left to send is the max version.
 pub async fn witness_empty_tail() -> TraceResult {
     let mut w = World::new(witness_cfg(3), 0xE7);
@@ -640,6 +678,7 @@ pub fn check(args: &Args) -> Outcome {
         for d in [-1i64, 0, 1] {
             wit.push(("issue178_big_state", rt.block_on(witness_178_big(d))));
         }
+        wit.push(("watch_reset_lowers_max_version", rt.block_on(witness_watch_reset())));
     }
     let mut kf1_witness_reproduced = false;
     for (name, tr) in wit {
